@@ -5,7 +5,7 @@ from . import decls as D
 
 I64 = (1 << 63) - 1
 
-CORPUS_VERSION = 16
+CORPUS_VERSION = 17
 
 AS = ['match', 'table', None, 'auto']  # None = parameter omitted (auto); 'auto' = written explicitly
 IT_G = ['range', 'next_and_back', 'table', 'table_inline', None, 'auto']
@@ -181,7 +181,7 @@ def build(tier, seed):
                 add(d, D.config(feats), kind='triple', classes=['+'.join(tr)])
     # name / vis / struct_name parameters
     for r, label, vals in [('i16', 'holes2', [0, 1, 9]), ('u8', 'gapless0', [0, 1, 2, 3])]:
-        for evis in ['pub', 'pub(crate)', '', 'pub(super)', 'pub(in crate::MOD)']:
+        for evis in ['pub', 'pub(crate)', '', 'pub(super)', 'pub(in crate::MOD)', 'pub(in super)', 'pub(self)', 'pub(in self)', 'pub(in crate::MOD::inner)', 'pub(in super::super /*MOD*/)', 'pub(in crate)']:
             d = D.make_decl(r, label, vals, 'asc', 'explicit', 'default', rnd, vis=evis)
             for pv in [None, '', 'pub(crate)', 'pub']:
                 for named in [False, True, 'dunder']:
@@ -196,7 +196,7 @@ def build(tier, seed):
                             # (the names struct yields &str: there a wider visibility than the enum's is legal and must be honoured)
                             if pv == 'pub' and evis != 'pub':
                                 fpv = None
-                            if pv == 'pub(crate)' and evis not in ('pub', 'pub(crate)', 'pub(super)'):
+                            if pv == 'pub(crate)' and evis not in ('pub', 'pub(crate)', 'pub(super)', 'pub(in super)', 'pub(in super::super /*MOD*/)', 'pub(in crate)'):
                                 fpv = None
                         if fpv is not None:
                             p['vis'] = fpv
